@@ -693,7 +693,7 @@ def c10(run):
         prog = dict_program(rng)
         cases.append((prog, progs.render(rng, prog)))
     reqs = [run_req(src) for _, src in cases]
-    m, im = run.tie(reqs, proj=lambda r: r, functional=True, desc=lambda i: {'program': cases[i][1]})
+    m, im = run.tie(reqs, proj=proj_run, functional=True, desc=lambda i: {'program': cases[i][1]})
     # repeated runs: same process (requests repeated back to back) and separate processes
     rep_reqs = []
     for r in reqs:
